@@ -405,7 +405,8 @@ impl<'a> WrappedLogosLexer<'a> {
 
     let loc = Location { module_reference: self.module_reference, start, end };
     let chars = &remainder_bytes[..comment_length];
-    if chars[2] == b'*' {
+    // `/**/` is an empty block comment, not a doc comment whose `/**` and `*/` share a star.
+    if chars[2] == b'*' && chars.len() > 4 {
       Some((
         true,
         loc,
